@@ -48,11 +48,15 @@ Definition class_of_c (pc : cpc_t) : Z :=
 Definition class_of_s (pc : spc_t) : Z :=
   match pc with SDone ROk => 0 | SDone (RErr _) => 2 | SDone (RPanic _) => 3 | _ => 1 end.
 
+Definition class_of_ret (r : option result) : Z :=
+  match r with Some ROk => 0 | None => 1 | Some (RErr ETimeout) => 1 | Some (RErr _) => 2 | Some (RPanic _) => 3 end.
+
 Record peer_case := {
   pc_client : bool;                 (* the real end is the client *)
   pc_cfg : config;
   pc_script : list frame;           (* what the scripted peer sends, in order *)
   pc_close : bool;                  (* ... and then closes (true) or falls silent (false) *)
+  pc_late : bool;                   (* the script is sent only after the real end's init timer has fired *)
   pc_files : list mapping;          (* /dev/shm as the real server saw it *)
   pc_obs_frames : list frame; pc_obs_class : Z; pc_obs_ver : Z; pc_obs_mapped : bool }.
 
@@ -69,10 +73,20 @@ Definition run_peer (c : peer_case) : world :=
     let w := preload cfg [] (pc_script c) (fs (init cfg)) in
     let w := run cfg (map (fun _ => LC) fuel) w in
     if pc_close c then run cfg (LDieS :: map (fun _ => LC) fuel) w else w
+  else if pc_late c then
+    let w := preload cfg [] [] (pc_files c) in
+    let w := run cfg [LS; LTimerS; LS; LRetS] w in
+    let w := {| wc := wc w; ws := ws w; c2s := c2s w ++ pc_script c; s2c := s2c w; fs := fs w;
+                c_out := c_out w; c_cons := c_cons w; s_out := s_out w; s_cons := s_cons w |} in
+    run cfg (map (fun _ => LS) fuel ++ [LRetS]) w
   else
     let w := preload cfg (pc_script c) [] (pc_files c) in
     let w := run cfg (map (fun _ => LS) fuel) w in
     if pc_close c then run cfg (LDieC :: map (fun _ => LS) fuel) w else w.
+
+(* the real end's outcome: for the late-script cases what newSession returned, else how the goroutine ended *)
+Definition s_class (c : peer_case) (w : world) : Z :=
+  if pc_late c then class_of_ret (sret (ws w)) else class_of_s (spc (ws w)).
 
 (* 0 agree; 1 frames differ; 2 class differs; 3 version differs; 4 mapped-or-not differs *)
 Definition check_peer (c : peer_case) : Z :=
@@ -84,7 +98,7 @@ Definition check_peer (c : peer_case) : Z :=
     else 0
   else
     if negb (list_eqb frame_eqb (s_out w) (pc_obs_frames c)) then 1
-    else if negb (class_of_s (spc (ws w)) =? pc_obs_class c) then 2
+    else if negb (s_class c w =? pc_obs_class c) then 2
     else if (pc_obs_class c =? 0) && negb (sver (ws w) =? pc_obs_ver c) then 3
     else if (pc_obs_class c =? 0) &&
             negb (Bool.eqb (match smapq (ws w), smapb (ws w) with Some _, Some _ => true | _, _ => false end)
@@ -92,8 +106,6 @@ Definition check_peer (c : peer_case) : Z :=
     else 0.
 
 (* ---------------- two real ends ---------------- *)
-Definition class_of_ret (r : option result) : Z :=
-  match r with Some ROk => 0 | None => 1 | Some (RErr ETimeout) => 1 | Some (RErr _) => 2 | Some (RPanic _) => 3 end.
 
 Record pair_case := {
   pp_cfg : config;
@@ -142,4 +154,4 @@ Definition mismatches := mismatches_from 0.
 Definition model_peer (c : peer_case) : list frame * Z * Z :=
   let w := run_peer c in
   if pc_client c then (c_out w, class_of_c (cpc (wc w)), cver (wc w))
-  else (s_out w, class_of_s (spc (ws w)), sver (ws w)).
+  else (s_out w, s_class c w, sver (ws w)).
